@@ -8,6 +8,7 @@ import (
 
 	"verif/harness/cs"
 	"verif/harness/gen"
+	"verif/harness/model"
 	"verif/harness/run"
 	"verif/harness/sm"
 )
@@ -130,7 +131,7 @@ func TestC12(t *testing.T) {
 }
 
 func testC12Histories(t *testing.T) {
-	(&smCheck{property: "C12", kind: "c12", rule: ruleC12, quick: 2500, thorough: 20000, stepsQ: 20, stepsT: 30,
+	(&smCheck{property: "C12", kind: "c12", rule: ruleC12, quick: 2500, thorough: 40000, stepsQ: 20, stepsT: 30,
 		backends: []string{run.Bbolt, run.Bbolt, run.BadgerMem},
 		profile:  func(rt *rapid.T) *sm.Profile { return c12Profile() },
 		session:  c12Session,
@@ -152,10 +153,12 @@ var c13Names = []string{"A", "B", "a", "ab", "a.b", "a:b", "c", "coll", "é", ""
 
 func c13Profile() *sm.Profile {
 	return &sm.Profile{
-		Name:        "c13",
-		FaultRate:   12,
-		Colls:       c13Names,
-		IndexFields: []string{"x", "xy", "y", "_id"},
+		Name:      "c13",
+		FaultRate: 12,
+		Colls:     c13Names,
+		// "b.x" next to "x": the pair (collection "a", field "b.x") and (collection "a.b", field "x")
+		// spell the same text when name and field are joined by a dot
+		IndexFields: []string{"x", "xy", "y", "_id", "b.x"},
 		Doc:         gen.DocCfg{Val: gen.ValCfg{MaxDepth: 1}, PAbsent: 3, Fields: []string{"x", "xy", "y", "u"}},
 		IdPool:      6, // ids are shared between collections on purpose
 		MaxDocs:     6,
@@ -208,14 +211,111 @@ func TestC13(t *testing.T) {
 			col.Case(true, hashOf(c), func() interface{} { return c }, "catalog-race", "backend:"+c.Backend)
 		})
 	})
+	t.Run("crossing", func(t *testing.T) {
+		// two collections whose names and index fields spell the same text when joined by a
+		// separator (collection p, field q<sep>r  /  collection p<sep>q, field r), sharing document
+		// ids: writes, index drops and ordered scans on one must never show in the other
+		col := collector("C13", ruleC13)
+		check(t, "C13", cases(300, 8000), 0, func(rt *rapid.T) {
+			backend := rapid.SampledFrom([]string{run.Bbolt, run.Bbolt, run.BadgerMem}).Draw(rt, "backend")
+			sep := rapid.SampledFrom([]string{".", ".", ":", "%", " ", "-", ""}).Draw(rt, "sep")
+			word := rapid.SampledFrom([]string{"a", "b", "app", "users", "x", "i", "c"})
+			pw, qw, rw := word.Draw(rt, "p"), word.Draw(rt, "q"), word.Draw(rt, "r")
+			c1, f1, c2, f2 := pw, qw+sep+rw, pw+sep+qw, rw
+			if c1 == c2 {
+				c2 += "2"
+			}
+			s, err := c13Session(backend)
+			if err != nil {
+				rt.Fatalf("open: %v", err)
+			}
+			defer s.Close()
+			do := func(op cs.Op) {
+				if f := s.Do(op); f != nil {
+					violate(rt, "C13", "c13", s.Program(f), f)
+				}
+			}
+			mk := func(field string, i int, v interface{}) cs.Doc {
+				d := cs.Doc{"_id": gen.Id(i), "u": int64(i)}
+				model.SetPath(d, field, v)
+				return d
+			}
+			n := rapid.IntRange(1, 5).Draw(rt, "ndocs")
+			var d1, d2 []cs.Doc
+			for i := 0; i < n; i++ {
+				d1 = append(d1, mk(f1, i, int64(rapid.IntRange(0, 3).Draw(rt, "v1"))))
+				d2 = append(d2, mk(f2, i, int64(10+rapid.IntRange(0, 3).Draw(rt, "v2"))))
+			}
+			scan := func() {
+				do(cs.Op{Kind: "find", Q: &cs.Query{Coll: c1, SortSet: true, Sort: []cs.SortOpt{{Field: f1, Dir: 1}}}})
+				do(cs.Op{Kind: "find", Q: &cs.Query{Coll: c2, SortSet: true, Sort: []cs.SortOpt{{Field: f2, Dir: -1}}}})
+				a := cs.Lit(int64(0))
+				do(cs.Op{Kind: "count", Q: &cs.Query{Coll: c1, Crit: &cs.Crit{Op: "gte", Field: f1, Arg: &a}}})
+				do(cs.Op{Kind: "count", Q: &cs.Query{Coll: c2, Crit: &cs.Crit{Op: "gte", Field: f2, Arg: &a}}})
+			}
+			steps := []func(){
+				func() { do(cs.Op{Kind: "createcoll", Coll: c1}) },
+				func() { do(cs.Op{Kind: "createcoll", Coll: c2}) },
+				func() { do(cs.Op{Kind: "insert", Coll: c1, Docs: d1}) },
+				func() { do(cs.Op{Kind: "insert", Coll: c2, Docs: d2}) },
+				func() { do(cs.Op{Kind: "createindex", Coll: c1, Field: f1}) },
+				func() { do(cs.Op{Kind: "createindex", Coll: c2, Field: f2}) },
+			}
+			// collections first, the rest in a drawn order
+			steps[0]()
+			steps[1]()
+			for _, i := range rapid.Permutation([]int{2, 3, 4, 5}).Draw(rt, "order") {
+				steps[i]()
+			}
+			scan()
+			do(cs.Op{Kind: "updatebyid", Coll: c1, Id: &cs.IdRef{Lit: gen.Id(0)}, Upd: &cs.Updater{Kind: "set", Field: f1, Value: cs.V{X: int64(7)}}})
+			scan()
+			if rapid.Bool().Draw(rt, "drop-first") {
+				do(cs.Op{Kind: "dropindex", Coll: c1, Field: f1})
+			} else {
+				do(cs.Op{Kind: "dropindex", Coll: c2, Field: f2})
+			}
+			scan()
+			do(cs.Op{Kind: "deletebyid", Coll: c2, Id: &cs.IdRef{Lit: gen.Id(0)}})
+			scan()
+			if rapid.Bool().Draw(rt, "drop-coll") {
+				do(cs.Op{Kind: "dropcoll", Coll: c1})
+				do(cs.Op{Kind: "find", Q: &cs.Query{Coll: c2, SortSet: true, Sort: []cs.SortOpt{{Field: f2, Dir: 1}}}})
+			}
+			do(cs.Op{Kind: "close"})
+			col.Case(true, hashOf(s.Ops, backend), func() interface{} {
+				return map[string]interface{}{"mode": "crossing names", "collections": []string{c1, c2}, "fields": []string{f1, f2}, "backend": backend}
+			}, "crossing-names", "backend:"+backend, "sep:"+sep)
+		})
+	})
 	t.Run("histories", testC13Histories)
 }
 
 func testC13Histories(t *testing.T) {
-	(&smCheck{property: "C13", kind: "c13", rule: ruleC13, quick: 2000, thorough: 50000, stepsQ: 20, stepsT: 30,
+	(&smCheck{property: "C13", kind: "c13", rule: ruleC13, quick: 2000, thorough: 120000, stepsQ: 20, stepsT: 30,
 		backends: []string{run.Bbolt, run.Bbolt, run.BadgerMem},
-		profile:  func(rt *rapid.T) *sm.Profile { return c13Profile() },
-		session:  c13Session,
+		profile: func(rt *rapid.T) *sm.Profile {
+			// a history works on one or two groups of related names plus a few others, so that related
+			// names are usually alive together
+			p := c13Profile()
+			groups := [][]string{{"a", "a.b", "ab", "a:b", "a b"}, {"A", "B"}, {"c", "c:a", "c%d", "coll"}, {"é", "", "100%"}, {c13Names[14], c13Names[15]}}
+			if rapid.IntRange(0, 3).Draw(rt, "all-names") != 0 {
+				names := append([]string{}, groups[rapid.IntRange(0, len(groups)-1).Draw(rt, "group")]...)
+				for i := rapid.IntRange(0, 3).Draw(rt, "extra-names"); i > 0; i-- {
+					names = append(names, rapid.SampledFrom(c13Names).Draw(rt, "extra-name"))
+				}
+				seen := map[string]bool{}
+				p.Colls = nil
+				for _, n := range names {
+					if !seen[n] {
+						seen[n] = true
+						p.Colls = append(p.Colls, n)
+					}
+				}
+			}
+			return p
+		},
+		session: c13Session,
 		classify: func(s *sm.Session, p *sm.Profile, op cs.Op) (bool, []string) {
 			target := op.Coll
 			if op.Q != nil && op.Kind != "createbyquery" {
@@ -254,9 +354,9 @@ func testC13Histories(t *testing.T) {
 
 // ---------------------------------------------------------------------------------- C14
 
-const ruleC14 = "model-based state machine on one or two collections over an index-field alphabet with prefix pairs (x/xy), dotted sub-paths (n/n.a/n.b) and names containing '%' (p1, p%d, q%), CreateIndex/DropIndex/HasIndex/ListIndexes interleaved with writes. After every step ListIndexes and HasIndex for every field equal the model (sentinels exact, including on missing collections); after every catalog change every surviving index must answer an ascending and a descending ordered scan and range/equality queries around a stored value exactly like the model. An evaluation is one step; non-trivial when the step creates or drops an index while a sibling index with a prefix/dotted relation exists; distinct = distinct (operation, model state). A second part races concurrent CreateIndex / DropIndex of the same fields with writes and queries (schedule perturbed at every store call) and requires the history, including a sequential epilogue of ListIndexes and index-ordered scans, to be linearizable."
+const ruleC14 = "model-based state machine on one or two collections over an index-field alphabet with prefix pairs (x/xy), dotted sub-paths (n/n.a/n.b) names containing '%' (p1, p%d, q%) and names differing only by a trailing blank or by case (x / 'x ' / X), CreateIndex/DropIndex/HasIndex/ListIndexes interleaved with writes. After every step ListIndexes and HasIndex for every field equal the model (sentinels exact, including on missing collections); after every catalog change every surviving index must answer an ascending and a descending ordered scan and range/equality queries around a stored value exactly like the model. An evaluation is one step; non-trivial when the step creates or drops an index while a sibling index with a prefix/dotted relation exists; distinct = distinct (operation, model state). A second part races concurrent CreateIndex / DropIndex of the same fields with writes and queries (schedule perturbed at every store call) and requires the history, including a sequential epilogue of ListIndexes and index-ordered scans, to be linearizable."
 
-var c14Fields = []string{"x", "xy", "n", "n.a", "n.b", "y", "s", "_id", "p1", "p%d", "q%"}
+var c14Fields = []string{"x", "xy", "n", "n.a", "n.b", "y", "s", "_id", "p1", "p%d", "q%", "x ", "X"}
 
 func c14Profile() *sm.Profile {
 	return &sm.Profile{
@@ -264,10 +364,10 @@ func c14Profile() *sm.Profile {
 		FaultRate:   12,
 		Colls:       []string{"A", "AB", "zz"},
 		IndexFields: c14Fields,
-		Doc:         gen.DocCfg{Val: gen.ValCfg{MaxDepth: 1}, PAbsent: 4, Fields: []string{"x", "xy", "n", "y", "s", "u", "p1", "p%d", "q%"}},
+		Doc:         gen.DocCfg{Val: gen.ValCfg{MaxDepth: 1}, PAbsent: 4, Fields: []string{"x", "xy", "n", "y", "s", "u", "p1", "p%d", "q%", "x ", "X"}},
 		IdPool:      16,
 		MaxDocs:     10,
-		Crit:        gen.CritEnv{Val: gen.ValCfg{MaxDepth: 1}, MaxDepth: 2, Fields: []string{"x", "xy", "n", "n.a", "n.b", "y", "s", "_id", "p1", "p%d", "q%"}},
+		Crit:        gen.CritEnv{Val: gen.ValCfg{MaxDepth: 1}, MaxDepth: 2, Fields: []string{"x", "xy", "n", "n.a", "n.b", "y", "s", "_id", "p1", "p%d", "q%", "x ", "X"}},
 		SortFields:  c14Fields,
 		Weights: []sm.W{{Kind: "createcoll", Weight: 3}, {Kind: "dropcoll", Weight: 1}, {Kind: "insert", Weight: 12}, {Kind: "replace", Weight: 3},
 			{Kind: "updatebyid", Weight: 6}, {Kind: "update", Weight: 4}, {Kind: "updatefunc", Weight: 4}, {Kind: "delete", Weight: 3},
